@@ -132,6 +132,12 @@ func (d *Reader) Read(p []byte) (n int, err error) {
 		i = (d.state.r - d.decodePosition() - 1) & (_N - 1)
 		j = c - 255 + _Threshold
 		for k = 0; k < j; k++ {
+			if d.state.pos >= d.header.size {
+				// The match runs past the declared size: the stream is corrupt.
+				// Never deliver more than the header promised.
+				d.err = ErrChecksum
+				return n, nil
+			}
 			c = int(d.z.textBuf[(i+k)&(_N-1)])
 			if n < len(p) {
 				p[n] = byte(c)
